@@ -46,6 +46,7 @@ Ltac split_ifs :=
   | |- context[if phalting ?p then _ else _] => destruct (phalting p) eqn:?
   | |- context[if pgo ?p then _ else _] => destruct (pgo p) eqn:?
   | |- context[if mem ?i ?l then _ else _] => destruct (mem i l) eqn:?
+  | |- context[p_loop ?p] => unfold p_loop
   | |- context[loop_pc ?p] => unfold loop_pc; destruct (prem p) eqn:?
   | |- context[if pcrash ?p then _ else _] => unfold crash_pc; destruct (pcrash p)
   end.
@@ -68,7 +69,9 @@ Proof.
   all: try (clear P; destruct Pi; constructor;
             try (erewrite alive_home_eq by reflexivity); unfold p_alive in *; simpl in *; rewrite ?Epc in *; simpl in *; try assumption; try (intuition congruence)).
   all: try match goal with
-    | |- (_ ++ [_]) ++ _ = _ => rewrite <- app_assoc; simpl; rewrite <- E; assumption
+    | |- (_ ++ [_]) ++ _ = _ =>
+        rewrite <- app_assoc; simpl;
+        match goal with Hr : prem _ = _ :: _ |- _ => rewrite <- Hr end; assumption
     | |- mem ?i (remove_first ?i _) = false => apply mem_remove_same; assumption
     | |- mem _ (remove_first _ _) = _ => rewrite mem_remove_other by assumption; assumption
     | |- context[if phalting ?p then _ else _] =>
